@@ -322,6 +322,10 @@ fn run_worker<C: SubCheck>(
     let strat = c.strategy(ctx.tier);
     let result = runner.run(&strat, |case| {
         if failed.get() {
+            // failures that cost a watchdog period per attempt (hangs) are not shrunk
+            if first_failure.borrow().as_ref().map_or(false, |(_, f)| f.sig.contains("did-not-return")) {
+                return Ok(());
+            }
             // shrinking: coverage no longer counted
             let mut scratch = Cov::new(0);
             return match checked(c, &case, &mut scratch) {
@@ -357,6 +361,11 @@ fn run_worker<C: SubCheck>(
         Ok(()) => None,
         Err(TestError::Fail(_, minimal)) => {
             let mut scratch = Cov::new(0);
+            let unshrunk = first_failure.borrow().as_ref().map_or(false, |(_, f)| f.sig.contains("did-not-return"));
+            if unshrunk {
+                let (case0, f0) = first_failure.borrow_mut().take().unwrap();
+                return WorkerResult { cov: cov.into_inner(), failure: Some((case0, f0)) };
+            }
             match checked(c, &minimal, &mut scratch) {
                 Err(f) => Some((minimal, f)),
                 Ok(()) => {
